@@ -130,6 +130,13 @@ def scratch_root():
     return _SCRATCH_ROOT
 
 
+def set_nested_scratch(path):
+    """Inside a run child: give nested forks (passes of one scenario) their own scratch area."""
+    global _SCRATCH_ROOT
+    os.makedirs(path, exist_ok=True)
+    _SCRATCH_ROOT = path
+
+
 def cleanup_scratch():
     global _SCRATCH_ROOT
     if _SCRATCH_ROOT and os.path.isdir(_SCRATCH_ROOT):
@@ -203,6 +210,9 @@ def run_forked(jobs_iter, nworkers, on_result):
         r, w = os.pipe()
         sys.stdout.flush()
         sys.stderr.flush()
+        # a faulthandler watchdog is a thread: forking with one armed deadlocks the child when it re-arms
+        import faulthandler
+        faulthandler.cancel_dump_traceback_later()
         pid = os.fork()
         if pid == 0:
             os.close(r)
